@@ -230,7 +230,9 @@ func c18Run(c *Ctx) {
 		extra = append(extra, rPkt{Kind: "cont", Msg: e.Sec.Own + "\xe9", Sid: sid}, rPkt{Kind: "cont", Msg: "\xe9" + e.Sec.Group2, Sid: sid},
 			rPkt{Kind: "pap", User: "own", Pw: e.Sec.Own + "\xe9", Sid: sid}, rPkt{Kind: "start", Action: 1, AType: 2, Service: 1, Minor: 0, User: "own", Pw: e.Sec.Own + "\xe9", Sid: sid},
 			// user names that are nothing but white space, padded names, and the password that follows them
-			rPkt{Kind: "cont", Msg: " ", Sid: sid}, rPkt{Kind: "cont", Msg: "own ", Sid: sid}, rPkt{Kind: "cont", Msg: e.Sec.Own, Sid: sid}, rPkt{Kind: "ascii", User: " ", Sid: sid})
+			rPkt{Kind: "cont", Msg: " ", Sid: sid}, rPkt{Kind: "cont", Msg: "own ", Sid: sid}, rPkt{Kind: "cont", Msg: e.Sec.Own, Sid: sid}, rPkt{Kind: "ascii", User: " ", Sid: sid},
+			// PAP logins whose fields are missing or blank
+			rPkt{Kind: "pap", User: "", Pw: e.Sec.Own, Sid: sid}, rPkt{Kind: "pap", User: " ", Pw: e.Sec.Own, Sid: sid}, rPkt{Kind: "pap", User: "nobody", Pw: e.Sec.Own, Sid: sid})
 	}
 	var core2 []rPkt
 	for _, p := range na {
